@@ -99,21 +99,8 @@ def _implies_size_ge(atom, pos, X, k, Y=None):
 
 
 def guard_edges(fn, X, k, Y=None):
-    cfg = fn.cfg
-    edges = []
-    for bid, b in cfg.blocks.items():
-        if b.cond is None or len(b.succs) != 2:
-            continue
-        c = fn.nodes.get(b.cond)
-        if c is None:
-            continue
-        atom, pos = cond_atom(fn, c)
-        # true edge = idx 0 means condition true
-        if _implies_size_ge(atom, pos, X, k, Y):
-            edges.append((bid, 0))
-        if _implies_size_ge(atom, not pos, X, k, Y):
-            edges.append((bid, 1))
-    return edges
+    from . import gates as G
+    return G.edges_where(fn, lambda atom, truth: _implies_size_ge(atom, truth, X, k, Y))
 
 
 def sites(fn):
